@@ -47,6 +47,15 @@ def structured_unitary(rng, d, kind):
         return (q * np.sign(np.diag(r))).astype(complex)
     if kind == "phase":
         return np.diag(np.exp(1j * rng.uniform(0, 2 * np.pi, size=d)))
+    if kind == "givens_far":
+        # mixes only the first and the last level (non-adjacent for d >= 3):
+        # the conjugated operator has a vanishing first super-diagonal
+        u = np.eye(d, dtype=complex)
+        th, ph = rng.uniform(0.3, 1.2), rng.uniform(0, 2 * np.pi)
+        c, s_ = np.cos(th), np.sin(th) * np.exp(1j * ph)
+        u[0, 0], u[0, d - 1] = c, -np.conj(s_)
+        u[d - 1, 0], u[d - 1, d - 1] = s_, c
+        return u
     if kind == "block":
         u = np.eye(d, dtype=complex)
         if d >= 2:
